@@ -338,5 +338,5 @@ func c10Check(c c10Case) vfResult {
 }
 
 func TestVerif_C10(t *testing.T) {
-	vfRun(t, vfSub[c10Case]{Prop: "C10", Name: "gen", Checks: vfN(120000, 6000000), Gen: c10Gen, Check: c10Check})
+	vfRun(t, vfSub[c10Case]{Prop: "C10", Name: "gen", Checks: vfN(120000, 40000000), Gen: c10Gen, Check: c10Check})
 }
